@@ -8,6 +8,7 @@ import (
 	"errors"
 	"fmt"
 	mrand "math/rand"
+	"net"
 	"runtime"
 	"sort"
 	"strconv"
@@ -20,6 +21,7 @@ import (
 	"github.com/alicebob/miniredis/v2"
 	"github.com/anishathalye/porcupine"
 	"github.com/google/uuid"
+	goredis "github.com/redis/go-redis/v9"
 
 	"tunnox-core/internal/core/storage"
 	"tunnox-core/internal/core/storage/memory"
@@ -248,16 +250,93 @@ func (c *c15Cluster) setHook(h vk.Hook) {
 	}
 }
 
-func c15NewCluster(backend string, nodes int, st *c15Stats) (*c15Cluster, error) {
+// c15RedisFault is a go-redis hook installed on every Redis client of a cluster: it
+// sits BELOW the repository's redis.Storage, so the storage's own error paths run. A
+// seeded fraction of the SET-if-absent commands fails with a transport-style error,
+// half of them before the command reaches the server, half after the server applied it
+// (lost reply).
+type c15RedisFault struct {
+	mu       sync.Mutex
+	r        *mrand.Rand
+	perMille atomic.Int64
+	before   atomic.Int64
+	after    atomic.Int64
+}
+
+func (f *c15RedisFault) DialHook(next goredis.DialHook) goredis.DialHook {
+	return func(ctx context.Context, network, addr string) (net.Conn, error) { return next(ctx, network, addr) }
+}
+func (f *c15RedisFault) ProcessPipelineHook(next goredis.ProcessPipelineHook) goredis.ProcessPipelineHook {
+	return next
+}
+func (f *c15RedisFault) ProcessHook(next goredis.ProcessHook) goredis.ProcessHook {
+	return func(ctx context.Context, cmd goredis.Cmder) error {
+		pm := int(f.perMille.Load())
+		if pm == 0 || !c15IsSetNX(cmd) {
+			return next(ctx, cmd)
+		}
+		f.mu.Lock()
+		x := f.r.Intn(1000)
+		early := f.r.Intn(2) == 0
+		f.mu.Unlock()
+		if x >= pm {
+			return next(ctx, cmd)
+		}
+		if early {
+			f.before.Add(1)
+			err := errors.New("verif: write tcp 10.0.0.2:51234->10.0.0.9:6379: connection reset (command not sent)")
+			cmd.SetErr(err)
+			return err
+		}
+		_ = next(ctx, cmd)
+		f.after.Add(1)
+		err := errors.New("verif: read tcp 10.0.0.2:51234->10.0.0.9:6379: i/o timeout (reply lost)")
+		cmd.SetErr(err)
+		return err
+	}
+}
+
+func c15IsSetNX(cmd goredis.Cmder) bool {
+	switch strings.ToLower(cmd.Name()) {
+	case "setnx":
+		return true
+	case "set":
+		for _, a := range cmd.Args() {
+			if s, ok := a.(string); ok && strings.EqualFold(s, "nx") {
+				return true
+			}
+		}
+	}
+	return false
+}
+
+type c15ClusterOpts struct {
+	cacheTTL   time.Duration  // > 0: hybrid instances get this (short) Default/Shared/Persistent cache TTL
+	redisFault *c15RedisFault // installed on every Redis client
+}
+
+func c15NewCluster(backend string, nodes int, st *c15Stats, opts c15ClusterOpts) (*c15Cluster, error) {
 	ctx, cancel := context.WithCancel(context.Background())
 	c := &c15Cluster{backend: backend, cancel: cancel}
+	hcfg := func() *storage.HybridConfig {
+		if opts.cacheTTL <= 0 {
+			return nil
+		}
+		cfg := storage.DefaultHybridConfig()
+		cfg.DefaultCacheTTL, cfg.SharedCacheTTL, cfg.PersistentCacheTTL = opts.cacheTTL, opts.cacheTTL, opts.cacheTTL
+		return cfg
+	}
 	gate := func(tier string, in types.FullStorage) *vk.Gated {
 		g := vk.NewGated(tier, &c15Obs{FullStorage: in, st: st})
 		c.gates = append(c.gates, g)
 		return g
 	}
 	newRedis := func() (*storage.RedisStorage, error) {
-		return storage.NewRedisStorage(ctx, &storage.RedisConfig{Addr: c.mr.Addr(), PoolSize: 6})
+		rs, err := storage.NewRedisStorage(ctx, &storage.RedisConfig{Addr: c.mr.Addr(), PoolSize: 6})
+		if err == nil && opts.redisFault != nil {
+			rs.Client().AddHook(opts.redisFault)
+		}
+		return rs, err
 	}
 	fail := func(err error) (*c15Cluster, error) { c.close(); return nil, err }
 	switch backend {
@@ -297,11 +376,11 @@ func c15NewCluster(backend string, nodes int, st *c15Stats) (*c15Cluster, error)
 			}
 			local := gate("local", memory.New(ctx))
 			shared := gate("shared", rs)
-			c.stores = append(c.stores, storage.NewHybridStorageWithSharedCache(ctx, local, shared, nil, nil))
+			c.stores = append(c.stores, storage.NewHybridStorageWithSharedCache(ctx, local, shared, nil, hcfg()))
 		}
 	case "hybrid-local":
 		// single process, no shared cache: every "node" is an IDManager on the one hybrid store
-		h := storage.NewHybridStorage(ctx, gate("local", memory.New(ctx)), nil, nil)
+		h := storage.NewHybridStorage(ctx, gate("local", memory.New(ctx)), nil, hcfg())
 		for i := 0; i < nodes; i++ {
 			c.stores = append(c.stores, h)
 		}
@@ -626,7 +705,8 @@ func (e *c15Env) release(n, th int, o c15Owned) (released bool) {
 
 // c15RunCase executes one case; false = watchdog fired (inconclusive).
 func c15RunCase(t *testing.T, run *vk.Run, ent *c15Entropy, cs c15Case, fam *c15Stats) bool {
-	cl, err := c15NewCluster(cs.Backend, cs.G, fam)
+	rf := &c15RedisFault{r: mrand.New(mrand.NewSource(cs.Sub ^ 0x4ed15))}
+	cl, err := c15NewCluster(cs.Backend, cs.G, fam, c15ClusterOpts{redisFault: rf})
 	if err != nil {
 		t.Fatalf("c15: cluster %s: %v", cs.Backend, err)
 	}
@@ -684,7 +764,11 @@ func c15RunCase(t *testing.T, run *vk.Run, ent *c15Entropy, cs c15Case, fam *c15
 	ent.rd.setForce(-1)
 	faults := &c15Faults{perMille: cs.Fault, live: &e.live}
 	cl.setHook(c15YieldHook(mrand.New(mrand.NewSource(cs.Sub^0x1e1d)), faults))
+	rf.perMille.Store(int64(cs.Fault)) // armed only now: seeding above ran without faults
 	defer func() {
+		rf.perMille.Store(0)
+		run.Count("redis_setnx_failed_before_apply", rf.before.Load())
+		run.Count("redis_setnx_reply_lost_after_apply", rf.after.Load())
 		run.Count("faults_injected", faults.injected.Load())
 		run.Count("faults_injected_on_held_id", faults.onLive.Load())
 	}()
@@ -852,7 +936,7 @@ func TestVerifC15Cluster(t *testing.T) {
 	vk.Quiet()
 	run := vk.Start(t, "C15", "idgen-cluster")
 	defer run.Finish()
-	run.Rule("case = (backend in memory/redis(miniredis)/hybrid+shared redis/hybrid local/no-SetNX double, K in {1,2,4,16,64} candidate ids per kind via a K-pattern crypto/rand.Reader, G in {1,2,4} IDManager nodes x 4 goroutines, pre-seed pattern none/some/all-but-one/all, release ratio); phases: seed via real Generate, mixed Generate/Release with random yields at every storage op and (2 of 3 cases) storage faults injected before SetNX/Set/Exists/Delete of marker keys at 0.5-4% (x4 on SetNX/Exists of a currently held id), fill to saturation, saturated probes, release all, regenerate; distinct = (backend,K,G,preseed,faults on/off)")
+	run.Rule("case = (backend in memory/redis(miniredis)/hybrid+shared redis/hybrid local/no-SetNX double, K in {1,2,4,16,64} candidate ids per kind via a K-pattern crypto/rand.Reader, G in {1,2,4} IDManager nodes x 4 goroutines, pre-seed pattern none/some/all-but-one/all, release ratio); phases: seed via real Generate, mixed Generate/Release with random yields at every storage op and (2 of 3 cases) storage faults injected before SetNX/Set/Exists/Delete of marker keys at 0.5-4% (x4 on SetNX/Exists of a currently held id) plus, on the Redis-backed stores, transport errors injected below the Redis storage on SET-NX commands (before the command is sent / reply lost after it was applied), fill to saturation, saturated probes, release all, regenerate; distinct = (backend,K,G,preseed,faults on/off)")
 	ent := c15InstallEntropy(t, run)
 	r := run.Rand("cases")
 	reps := run.Pick(3, 30)
@@ -916,6 +1000,8 @@ func TestVerifC15Cluster(t *testing.T) {
 	run.Floor("preseeded_markers", 10)
 	run.Floor("faults_injected", 200)
 	run.Floor("faults_injected_on_held_id", 50)
+	run.Floor("redis_setnx_failed_before_apply", 50)
+	run.Floor("redis_setnx_reply_lost_after_apply", 50)
 }
 
 // TestVerifC15Sched drives small scenarios under the cooperative scheduler: one
@@ -1122,6 +1208,145 @@ func TestVerifC15Sched(t *testing.T) {
 	run.Floor("exhausted", 1)
 	run.Floor("schedules_with_preemption", 20)
 	run.Floor("faults_injected", 50)
+}
+
+// TestVerifC15Aging — "time passes" family on the hybrid backends. The hybrid stores
+// are built with a SHORT hot-cache TTL (Default/Shared/Persistent cache TTL = 100 ms);
+// the id markers carry their own 30-day TTL. Node 0 generates ids (K-pattern entropy),
+// the harness lets them age well beyond the hot-cache TTL (real sleep, mirrored into
+// the miniredis clock) and then all nodes generate again. The verdict does not depend
+// on how long was slept: an id that was returned and never released must not be
+// returned again, whatever the elapsed time below 30 days.
+func TestVerifC15Aging(t *testing.T) {
+	vk.Quiet()
+	run := vk.Start(t, "C15", "idgen-aging")
+	defer run.Finish()
+	run.Rule("case = (hybrid+shared redis / hybrid local with 100 ms cache TTLs, K in {2,4,16}, G in {2,3} nodes, subset of candidates generated by node 0 and held); then >= 3x the cache TTL passes (sleep, miniredis clock advanced by the really elapsed time), then every node x 2 goroutines generates each kind repeatedly, some held ids are released and generation continues; distinct = (backend,K,G,held pattern)")
+	ent := c15InstallEntropy(t, run)
+	r := run.Rand("aging")
+	reps := run.Pick(1, 8)
+	const cacheTTL = 100 * time.Millisecond
+	fam := &c15Stats{}
+	planned, decided := 0, 0
+	for _, be := range []string{"hybrid-shared", "hybrid-local"} {
+		for _, k := range []int{2, 4, 16} {
+			for rep := 0; rep < reps; rep++ {
+				planned++
+				if run.Violations() >= 20 {
+					continue
+				}
+				g := 2 + (rep+k)%2
+				cs := c15Case{Backend: be, K: k, G: g, Threads: 2, Seed: []string{"some", "all-but-one", "all"}[r.Intn(3)], Sub: r.Int63()}
+				run.Case(fmt.Sprintf("aging|%s|K=%d|G=%d|%s", be, k, g, cs.Seed), cs)
+				func() {
+					cl, err := c15NewCluster(be, g, fam, c15ClusterOpts{cacheTTL: cacheTTL})
+					if err != nil {
+						t.Fatalf("c15: aging cluster: %v", err)
+					}
+					defer cl.close()
+					ctx, cancel := context.WithCancel(context.Background())
+					defer cancel()
+					e := &c15Env{run: run, ent: ent, cs: cs, hist: &c15Hist{}, dbTaken: map[int64]bool{}, seeded: map[string]bool{}}
+					for i := 0; i < g; i++ {
+						e.mgrs = append(e.mgrs, NewIDManager(cl.stores[i], ctx))
+					}
+					cr := mrand.New(mrand.NewSource(cs.Sub))
+					ent.rd.reset(k, cs.Sub^0x5eed)
+					// node 0 generates and holds
+					type heldID struct {
+						kind int
+						id   string
+					}
+					var held []heldID
+					for kd := range c15Kinds {
+						skip := cr.Intn(k)
+						for i := 0; i < k; i++ {
+							if (cs.Seed == "some" && cr.Intn(2) == 0) || (cs.Seed == "all-but-one" && i == skip) {
+								continue
+							}
+							ent.rd.setForce(i)
+							id, ok := e.generate(0, 0, kd, "hold")
+							if !ok {
+								ent.rd.setForce(-1)
+								t.Fatalf("c15: aging: initial generation of %s pattern %d failed", c15Kinds[kd].name, i)
+							}
+							e.seeded[c15Kinds[kd].name+":"+id] = true
+							held = append(held, heldID{kd, id})
+						}
+					}
+					ent.rd.setForce(-1)
+					run.Count("held_ids", int64(len(held)))
+					// time passes
+					t0 := time.Now()
+					time.Sleep(3*cacheTTL + 50*time.Millisecond)
+					if cl.mr != nil {
+						cl.mr.FastForward(time.Since(t0))
+					}
+					run.Count("aging_periods", 1)
+					// everybody generates again
+					var wg sync.WaitGroup
+					for w := 0; w < g*cs.Threads; w++ {
+						wg.Add(1)
+						go func(w int) {
+							defer wg.Done()
+							for round := 0; round < 3; round++ {
+								for kd := range c15Kinds {
+									if _, ok := e.generate(w/cs.Threads, w%cs.Threads, kd, "after-aging"); ok {
+										run.Count("generated_after_aging", 1)
+									} else {
+										run.Count("refused_after_aging", 1)
+									}
+								}
+							}
+						}(w)
+					}
+					wg.Wait()
+					// release a few of the held ids (they become legal again), age, generate
+					for i, hd := range held {
+						if i%3 == 0 {
+							delete(e.seeded, c15Kinds[hd.kind].name+":"+hd.id)
+							e.release(0, 0, c15Owned{hd.kind, hd.id})
+						}
+					}
+					t1 := time.Now()
+					time.Sleep(cacheTTL + 30*time.Millisecond)
+					if cl.mr != nil {
+						cl.mr.FastForward(time.Since(t1))
+					}
+					for w := 0; w < g; w++ {
+						for kd := range c15Kinds {
+							if _, ok := e.generate(w, 0, kd, "after-release-and-aging"); ok {
+								run.Count("generated_after_aging", 1)
+							} else {
+								run.Count("refused_after_aging", 1)
+							}
+						}
+					}
+					bad, unknown, parts := c15CheckHistory(e.hist.ops)
+					run.Count("partitions_checked", int64(parts))
+					run.Count("checker_timeouts", int64(unknown))
+					for _, p := range bad {
+						run.Violation(fmt.Sprintf("C15:duplicate-live-id|backend=%s|after=cache-ttl-elapsed", be),
+							map[string]any{"case": cs, "cache_ttl": cacheTTL.String(), "kind": p[0].Kind, "id": p[0].ID, "witness": c15Witness(p)})
+					}
+					if unknown == 0 {
+						decided++
+					}
+				}()
+				run.Eval(1)
+				run.Distinct(fmt.Sprintf("%s|K=%d|G=%d|%s", be, k, g, cs.Seed))
+				run.Sample(cs)
+			}
+		}
+	}
+	run.Count("collisions", fam.nxFalse.Load())
+	if decided == planned || run.Violations() >= 20 {
+		run.Count("all_cases_decided", 1)
+	}
+	run.Floor("all_cases_decided", 1)
+	run.Floor("held_ids", 50)
+	run.Floor("refused_after_aging", 50)
+	run.Floor("generated_after_aging", 5)
 }
 
 // TestVerifC15UUID: connection / mapping-instance / tunnel ids come from UUIDv7 and
